@@ -684,6 +684,23 @@ pub fn default_tls_server_config(
     Ok(config)
 }
 
+/// Verification hook: drive the private request front door (header gate, opcode gate, question
+/// parsing, access control, dispatch) with raw bytes, without sockets.
+#[cfg(feature = "verif-hooks")]
+impl<T: RequestHandler> Server<T> {
+    #[allow(missing_docs)]
+    pub async fn verif_handle_raw_request(
+        &self,
+        message: SerialMessage,
+        protocol: Protocol,
+        response_handler: BufDnsStreamHandle,
+    ) {
+        self.context
+            .handle_raw_request(message, protocol, response_handler)
+            .await
+    }
+}
+
 struct ServerContext<T> {
     handler: T,
     access: AccessControl,
